@@ -4,7 +4,6 @@ package main
 
 import (
 	"fmt"
-	"go/constant"
 	"go/token"
 	"math/big"
 	"sort"
@@ -537,7 +536,7 @@ func countConst(uses []constUse, op token.Token, k int64) int {
 
 func r04_5(c *Ctx, r *Report) {
 	const rule = "R04.5"
-	r.rule(rule, "Time units. SubtractMinute(o) is 1440 * (day difference) + (own hour*60 + minute) - (o's hour*60 + minute), the day difference being Subtract(o): followed by the evaluator for day differences -2..2 and times of day on both sides; NextHour(n) moves the date by floor((hour + n) / 24) days through NextDay and sets the hour to (hour + n) mod 24, minute and second unchanged: followed for every start hour and n in -60..60 (the date calls are abstract inputs). The expression GetJulianDay returns, as an affine form with exact rational coefficients over its parameters (E11b: helpers inline, truncations and merges are atoms), has coefficient 1 for the day, 1/24 for the hour, 1/1440 for the minute and 1/86400 for the second; NewSolarFromJulianDay (with its helpers) multiplies the fraction by 24, 60, 60 (the carries themselves are R04.9).")
+	r.rule(rule, "Time units. SubtractMinute(o) is 1440 * (day difference) + (own hour*60 + minute) - (o's hour*60 + minute), the day difference being Subtract(o): followed by the evaluator for day differences -2..2 and times of day on both sides; NextHour(n) moves the date by floor((hour + n) / 24) days through NextDay and sets the hour to (hour + n) mod 24, minute and second unchanged: followed for every start hour and n in -60..60 (the date calls are abstract inputs). The expression GetJulianDay returns, as an affine form with exact rational coefficients over its parameters (E11b: helpers inline, truncations and merges are atoms), has coefficient 1 for the day, 1/24 for the hour, 1/1440 for the minute and 1/86400 for the second; (NewSolarFromJulianDay's split of the fraction and its carries are followed from the number itself: R04.9.)")
 	solarFields := func(recv ssa.Value, vals [6]int64, fr *evalFrame, v ssa.Value) (interface{}, bool) {
 		if rc, f, ok := getterField(c, v); ok {
 			if ofr, o := fr.origin(rc); ofr.parent == nil && o == recv {
@@ -704,25 +703,6 @@ func r04_5(c *Ctx, r *Report) {
 		sort.Strings(bad)
 		r.check(len(bad) == 0 && n == 24*121, rule, "calendar.(*Solar).NextHour moves the date by whole days and wraps the hour", c.fnPos(fn), fmt.Sprintf("%d cases; deviations: %v", n, headList(dedupe(bad), 3)))
 	}
-	floatConsts := func(fn *ssa.Function, op token.Token) []float64 {
-		var out []float64
-		for _, f := range withHelpers(c, fn) {
-			for _, b := range f.Blocks {
-				for _, ins := range b.Instrs {
-					if bo, ok := ins.(*ssa.BinOp); ok && bo.Op == op && isFloatType(bo.Type()) {
-						if k, ok := bo.Y.(*ssa.Const); ok && k.Value != nil {
-							f64, _ := constant.Float64Val(k.Value)
-							if f64 == 24 || f64 == 60 {
-								out = append(out, f64)
-							}
-						}
-					}
-				}
-			}
-		}
-		sort.Float64s(out)
-		return out
-	}
 	g, h := c.Fn(r, rule, "SolarUtil.GetJulianDay"), c.Fn(r, rule, "calendar.NewSolarFromJulianDay")
 	if g != nil && len(g.Params) == 6 {
 		// the returned expression as an affine form with exact rational coefficients over the parameters
@@ -743,12 +723,8 @@ func r04_5(c *Ctx, r *Report) {
 		}
 		r.check(okk && n > 0, rule, "SolarUtil.GetJulianDay adds the time of day as hour/24 + minute/1440 + second/86400 of a day", c.fnPos(g), "coefficients of the returned expression: "+strings.Join(forms, "; "))
 	}
-	if g != nil && h != nil {
-		muls := floatConsts(h, token.MUL)
-		okk := len(muls) == 3 && muls[0] == 24 && muls[1] == 60 && muls[2] == 60
-		r.check(okk, rule, "NewSolarFromJulianDay multiplies the fraction of the day by 24, 60, 60", c.fnPos(h), fmt.Sprintf("multiplications %v", muls))
-	}
-	r.floor(rule, 4)
+	_ = h // (how NewSolarFromJulianDay splits the fraction is followed from the number itself: R04.9)
+	r.floor(rule, 3)
 }
 
 // ---------- R04.6 mirror symmetry of the day difference ----------
